@@ -193,9 +193,19 @@ class Impl(object):
         t = self.t
         if op == 1:
             def go1():
+                # a new index, alternately through overwrite=True and through the default flags on an empty folder /
+                # without folder (an index "created fresh": the constructor flags must not matter)
+                self._opens = getattr(self, "_opens", 0) + 1
+                default_flags = (self._opens + a[0] + len(a[1])) % 2 == 0
                 if self.backend == "f":
                     t.close()
-                self.open(a[0], [(p, k) for p, k in a[1]], overwrite=True)
+                    if default_flags:
+                        for fn in ("lru_trie.dat", "link_store.dat"):
+                            try:
+                                os.remove(os.path.join(self.folder, fn))
+                            except OSError:
+                                pass
+                self.open(a[0], [(p, k) for p, k in a[1]], overwrite=not default_flags)
                 return 1
             return self.call(go1)
         if op == 13:
